@@ -317,7 +317,7 @@ static int drv_main(int argc, char **argv)
 					started = 1;
 					prog[0] = (long) i; prog[1] = drv_beh; prog[2] = 0;
 					if (write(status_pipe[1], prog, sizeof(prog)) < 0) _exit(3);
-					alarm(20);
+					alarm(45);   /* per behaviour; generous because 20 checks may share the machine */
 					drv_reset();
 					free(copy);
 					continue;
@@ -356,7 +356,7 @@ static int drv_main(int argc, char **argv)
 			printf("{\"b\":%ld,\"i\":%ld,\"a\":\"%s\",\"sig\":%d}\n", prog[1], prog[2],
 			       sig == SIGALRM ? "Hang" : "Crash", sig);
 			fflush(stdout);
-			/* a change that breaks progress hangs every behaviour: stop after a few (20 s each) */
+			/* a change that breaks progress hangs every behaviour: stop after a few (45 s each) */
 			if (sig == SIGALRM && ++hangs >= 6) {
 				break;
 			}
